@@ -109,7 +109,7 @@ Fixpoint mapM {A B} (f : A -> res B) (l : list A) : res (list B) :=
 
 Definition templateType (mode : mpdType) (a : asIn) : mpdType := if a_image a then MNumber else mode.
 
-Definition splitAS (mode : mpdType) (cont : bool) (pNr periodDur : Z) (a : asIn) : res asOut :=
+Definition splitAS (mode : mpdType) (cont : bool) (snr : Z) (pNr periodDur : Z) (a : asIn) : res asOut :=
   let timeScale := match a_ts a with Some t => t | None => 1 end in
   let pto := u64 (pNr * periodDur * timeScale) in
   match templateType mode a with
@@ -118,7 +118,7 @@ Definition splitAS (mode : mpdType) (cont : bool) (pNr periodDur : Z) (a : asIn)
     | None => Panic "splitPeriod: nil pointer dereference"
     | Some segDur =>
       if segDur =? 0 then Panic "splitPeriod: integer divide by zero" else
-      Ok {| o_pto := pto; o_startNr := Some (u32 (Z.quot (pNr * periodDur * timeScale) segDur));
+      Ok {| o_pto := pto; o_startNr := Some (u32 (Z.quot (pNr * periodDur * timeScale) segDur + snr));
             o_tl := a_tl a; o_cont := cont |}
     end
   | MTimelineTime =>
@@ -140,12 +140,15 @@ Definition splitAS (mode : mpdType) (cont : bool) (pNr periodDur : Z) (a : asIn)
 (** In the $Number$ branch the clone keeps whatever SegmentTimeline the input had (none, after
     adjustAdaptationSetForSegmentNumber). *)
 
-Definition periodOf (mode : mpdType) (cont : bool) (periodDur : Z) (ases : list asIn) (pNr : Z) : res period :=
-  do out <- mapM (splitAS mode cont pNr periodDur) ases;
+Definition periodOf (mode : mpdType) (cont : bool) (snr : Z) (periodDur : Z) (ases : list asIn) (pNr : Z) : res period :=
+  do out <- mapM (splitAS mode cont snr pNr periodDur) ases;
   Ok {| pd_nr := pNr; pd_start := pNr * periodDur; pd_as := out |}.
 
-(** [splitPeriod] for [cfg.PeriodsPerHour = &pph]; [startTimeMS]/[nowMS] are the wrapTimes fields. *)
-Definition splitPeriod (pph segDurMS : Z) (mode : mpdType) (cont : bool) (startTimeMS nowMS : Z)
+(** [splitPeriod] for [cfg.PeriodsPerHour = &pph]; [astMS = cfg.StartTimeS*1000], [snr =
+    cfg.getStartNr()]; [startTimeMS]/[nowMS] are the wrapTimes fields.  Periods are counted from
+    availabilityStartTime (repository commit 961c9dc), the $Number$ startNumber of a period
+    includes the configured start number (bde286d). *)
+Definition splitPeriod (pph segDurMS : Z) (mode : mpdType) (cont : bool) (astMS snr : Z) (startTimeMS nowMS : Z)
            (ases : list asIn) : res (list period) :=
   if pph =? 0 then Panic "splitPeriod: integer divide by zero" else
   let periodDur := Z.quot 3600 pph in
@@ -153,11 +156,11 @@ Definition splitPeriod (pph segDurMS : Z) (mode : mpdType) (cont : bool) (startT
   if negb (Z.rem (periodDur * 1000) segDurMS =? 0) then
     Err "period duration not a multiple of segment duration" else
   if periodDur * 1000 =? 0 then Panic "splitPeriod: integer divide by zero" else
-  let startPeriodNr := Z.quot startTimeMS (periodDur * 1000) in
-  let endPeriodNr := Z.quot nowMS (periodDur * 1000) in
+  let startPeriodNr := Z.quot (startTimeMS - astMS) (periodDur * 1000) in
+  let endPeriodNr := Z.quot (nowMS - astMS) (periodDur * 1000) in
   (* make([]*m.Period, 0, nrPeriods) *)
   if endPeriodNr - startPeriodNr + 1 <? 0 then Panic "splitPeriod: makeslice: cap out of range" else
-  mapM (periodOf mode cont periodDur ases) (seqZ startPeriodNr (Z.to_nat (endPeriodNr - startPeriodNr + 1))).
+  mapM (periodOf mode cont snr periodDur ases) (seqZ startPeriodNr (Z.to_nat (endPeriodNr - startPeriodNr + 1))).
 
 (** lastPeriodStartTime: availabilityStartTime + start of the last period, in seconds. *)
 Definition lastPeriodStartTime (astS : Z) (ps : list period) : res Z :=
@@ -166,12 +169,17 @@ Definition lastPeriodStartTime (astS : Z) (ps : list period) : res Z :=
   | p :: _ => Ok (astS + pd_start p)
   end.
 
-(** The multi-period tail of LiveMPD (no stop time): periods, and the publishTime that replaces
-    the single-period one in $Number$ mode ([None]: publishTime left as computed before). *)
+Definition pphRangeMsg : string := "periods per hour must be in the range 1-3600".
+
+(** The multi-period part of a live MPD request (no stop time): verifyAndFillConfig's range check
+    of periods-per-hour (commit 9fbd9f7; answered 400), then splitPeriod with the wrap times, and
+    the publishTime that replaces the single-period one in $Number$ mode ([None]: publishTime
+    left as computed before).  [startNr c] is cfg.getStartNr(). *)
 Definition livePeriods (loopMS : Z) (c : tcfg) (nowMS tsbdMS : Z) (pph segDurMS : Z) (mode : mpdType)
            (cont : bool) (ases : list asIn) : res (list period * option Z) :=
+  if (pph <=? 0) || (3600 <? pph) then Err pphRangeMsg else
   let wt := calcWrapTimes loopMS c nowMS tsbdMS in
-  do ps <- splitPeriod pph segDurMS mode cont (startTimeMS wt) (wnowMS wt) ases;
+  do ps <- splitPeriod pph segDurMS mode cont (startS c * 1000) (startNr c) (startTimeMS wt) (wnowMS wt) ases;
   match mode with
   | MNumber => do pt <- lastPeriodStartTime (startS c) ps; Ok (ps, Some pt)
   | _ => Ok (ps, None)
